@@ -47,7 +47,13 @@ class World(object):
         self.bools = [B.Sym('p%d' % i, B.BOOL) for i in range(4)]
         self.bvs = [B.Sym('v%d' % i, B.BV(2)) for i in range(3)]
         self.us = [B.Sym('u%d' % i, G.US) for i in range(2)]
-        self.hostile = [B.Sym('x y', B.BOOL), B.Sym('.def_0', B.BOOL)]
+        self.hostile = [B.Sym('x y', B.BOOL), B.Sym('.def_0', B.BOOL),
+                        B.Sym('st:ready', B.BOOL), B.Sym('cnt,0', B.BOOL),
+                        B.Sym('a;b', B.BOOL), B.Sym('q#r', B.BOOL)]
+        # an array whose literal has a *symbolic* default that occurs
+        # nowhere else
+        self.arr = B.Sym('ar0', B.ARR(B.BV(2), B.BV(2)))
+        self.fills = [B.Sym('fill%d' % i, B.BV(2)) for i in range(2)]
 
     def term_bv(self, d):
         r = self.rng
@@ -66,8 +72,15 @@ class World(object):
         if d <= 0 or r.random() < 0.3:
             k = r.random()
             if k < 0.5:
-                return r.choice(self.bools + (self.hostile if k < 0.05
+                return r.choice(self.bools + (self.hostile if k < 0.08
                                               else []))
+            if k < 0.56 and not self.use_sorts:
+                lit = ('arrayval', B.BV(2), (r.choice(self.fills),))
+                if r.random() < 0.3:
+                    lit = ('store', None, (lit, self.term_bv(0),
+                                           self.term_bv(0)))
+                return ('eq', None, (('select', None, (lit, self.term_bv(0))),
+                                     self.term_bv(0)))
             if k < 0.85:
                 return (r.choice(['eq', 'bvult', 'bvule', 'bvslt']), None,
                         (self.term_bv(1), self.term_bv(1)))
